@@ -91,6 +91,22 @@ def run(ctx):
         fs[p], fs[ps.paths["other.bin"]] = fs[ps.paths["other.bin"]], fs[p]
         cases.append({"set": ps, "edit": ("swap", 0, 0), "surv": [True] * ((n + S - 1) // S), "fs": fs,
                       "vline": L.line_verify("p2", "mem", ps.index, 1, fs)})
+    # a lost file whose slices survive only INSIDE ANOTHER, fully intact protected file (a twin with the same content): found
+    # "wherever they lie" includes there.  (Content embedded at an odd offset of an intact file overlaps that file's own
+    # surviving slices, which the property excludes - and the scanner indeed steps over it.)
+    tsets = []
+    for S in (4, 8) + ((12, 64) if thorough else ()):
+        x = L.gen_content(rng, "random", 3 * S + 2)
+        ts = P.PSet({"f.bin": x, "twin.bin": x, "other.bin": L.gen_content(rng, "random", S + 1)}, S, 2, g=1, tag="twin S=%d" % S)
+        ts.kind = "random"; tsets.append(ts)
+    for ps, line, i, m in P.create_all(ctx, vh, model, tsets):
+        if i != m or ps.created is None:
+            ctx.violation("Create differs from the model or failed (%s)" % ps.tag, {"lines": [line], "impl": i[:2000], "model": m[:2000], "class": {"op": "create"}}, no_failing_input=True)
+            continue
+        fs = dict(ps.created); del fs[ps.paths["f.bin"]]
+        total = sum((len(d_) + ps.slice - 1) // ps.slice for d_ in ps.files.values())
+        cases.append({"set": ps, "edit": ("swap", 1, 0), "surv": [True] * ((len(ps.files["f.bin"]) + ps.slice - 1) // ps.slice), "fs": fs, "need": total,
+                      "vline": L.line_verify("p2", "mem", ps.index, 1, fs)})
     vi, vm = P.run_both(ctx, vh, model, [c["vline"] for c in cases])
     rep = [0]
 
@@ -121,7 +137,7 @@ def run(ctx):
         # With low-entropy / duplicate content an earlier accidental match may shadow a survivor; there the
         # proved scan of the model decides (C16_found's hypothesis), so the oracle is applied to random content only.
         n_other = (len(ps.files["other.bin"]) + ps.slice - 1) // ps.slice
-        need = sum(c["surv"]) + n_other
+        need = c.get("need", sum(c["surv"]) + n_other)
         if ps.kind == "random" and ca["usable"] < need:
             report("%d slices survive the edit contiguously but only %d are counted usable (%s, edit %s)" %
                    (need, ca["usable"], ps.tag, c["edit"]), replay)
